@@ -76,13 +76,19 @@ fn main() {
                 checks::vmcommon::Compiled::Ok(p) => {
                     println!("{}", p.disassemble_string());
                     let cfg = ctl::vmctl::CtlConfig { gc, quarantine, event_log: true, ..Default::default() };
-                    let knobs = ctl::vmrun::Knobs { budget: 100_000, ..Default::default() };
+                    let budget = std::env::var("CAOSIM_BUDGET").ok().and_then(|b| b.parse().ok()).unwrap_or(100_000u64);
+                    let knobs = ctl::vmrun::Knobs { budget, ..Default::default() };
                     let out = ctl::vmrun::run_program(&p, &knobs, cfg, Default::default());
                     println!("result: {} {}", out.result, out.error_msg);
                     for (k, v) in out.globals.iter() {
                         println!("global {k} = {}", v.short());
                     }
                     println!("end stack height {} call depth {} dangling-open-upvalue sightings {}", out.end_stack_height, out.end_call_depth, out.counters.dangling_open_upvalue);
+                    println!(
+                        "dispatches {} allocations {} collections {} (forced {}) swept {} peak accounted {} accounted at end {}",
+                        out.counters.dispatches, out.counters.allocs, out.counters.gcs, out.counters.gcs_forced, out.counters.swept,
+                        out.counters.peak_allocated, out.end_allocated
+                    );
                     for f in out.findings.iter() {
                         println!("finding: {} {}", f.kind, f.what);
                     }
